@@ -1381,7 +1381,29 @@ def check(ck):
     ck.run(check_unresolvable_is_absent, ck, R3)
     ck.run(check_decoded_on_every_read, ck, R3)
     fw = FA(ck, "reference.FunctionReferenceWithArguments.__init__")
-    rz = [r for r in fw.stmts(ast.Raise) if isinstance(r.exc, ast.Call)]
-    okz = bool(rz) and all(A.call_attr(r.exc) == "FunctionNotFoundError" for r in rz)
+    # the refusals reached BECAUSE the reference has no function object (path conditions say `<reference>.memento_fn` is absent) are
+    # FunctionNotFoundError - what get_mementos / the decoder turn into "absent"; whatever else the constructor (or a helper written
+    # out in it) refuses - a reserved parameter name, an argument of the wrong type - is not this clause's business
+    refp = next((p_ for p_ in fw.fi.params if p_ not in ("self", "cls")), "fn_reference")
+    absent = {("%s.memento_fn" % refp, False), ("%s.memento_fn is None" % refp, True), ("None is %s.memento_fn" % refp, True),
+              ("self.fn_reference.memento_fn", False), ("self.fn_reference.memento_fn is None", True)}
+    fnf_names = {"FunctionNotFoundError"}
+    for modname in ("exception", "types"):
+        for c_ in list(ck.repo.module(modname).all_classes()):
+            if any(b.name == "FunctionNotFoundError" for b in ck.repo.mro(c_)[1:]):
+                fnf_names.add(c_.name)
+    rz = []
+    for r in fw.stmts(ast.Raise):
+        if not fw.nodes(r):
+            continue
+        conds = fw.conditions(r)
+        if conds is None:
+            raise AnalysisError("FunctionReferenceWithArguments.__init__: too many paths to a raise")
+        if any(c_ & absent for c_ in conds):
+            rz.append(r)
+    bad = [r for r in rz if not (isinstance(r.exc, ast.Call) and A.call_attr(r.exc) in fnf_names)]
+    okz = bool(rz) and not bad
     ck.ob(R3, fw.key(None, "signals-not-found"), okz, "an unmappable reference is signalled as FunctionNotFoundError" if okz else
-          "FunctionReferenceWithArguments signals an unmappable reference with another exception type", fw.where())
+          "FunctionReferenceWithArguments signals an unmappable reference with another exception type" if bad else
+          "FunctionReferenceWithArguments no longer refuses a reference that cannot be mapped to a function with FunctionNotFoundError",
+          fw.where(bad[0]) if bad else fw.where())
